@@ -32,6 +32,11 @@ def repo_env(extra=None):
     return env
 
 
+def vsg_cmd():
+    """the command line tool of the tree under test (python -m vsg does nothing: __main__ has no guard)"""
+    return [PY, "-W", "ignore", os.path.join(REPO, "bin", "vsg")]
+
+
 def sh(cmd, timeout=None, cwd=None, env=None, inp=None):
     p = subprocess.run(cmd, cwd=cwd, env=env, input=inp, text=True, stdout=subprocess.PIPE, stderr=subprocess.STDOUT, timeout=timeout, shell=isinstance(cmd, str))
     return p.returncode, p.stdout
